@@ -215,6 +215,16 @@ CLAIMED = {
         "its square; quick tier samples the larger enumerations.",
    technique="TLA+ definitional oracle enumerated by TLC + replay of every case into the real functions",
    design="4/C18"),
+ "C19": dict(
+   text="spec/Peaks.tla defines gap-threshold clustering of hits into peaks (extensions, max duration, area and channel cuts), merging "
+        "(areas add, span first start to last end), replacing merged peaks (others untouched and ordered), the symmetric moving "
+        "average and the area-fraction index with exact rationals; TLC enumerates every input of the scope, checks the conservation "
+        "laws (area and hit count conserved, per-channel areas sum to the area, peaks time-ordered and disjoint, replace keeps count "
+        "and order) and prints the expected results, which are compared with the real numba functions.",
+   note="Not covered by the specification: split_peaks, natural_breaks_gof, highest_density_region, sum_waveform / down-sampling. "
+        "Scope: <=3 hits on grid 0..5 with 2 channels, <=4 peaks, waveforms of <=7 samples over {0..3}.",
+   technique="TLA+ definitional oracle enumerated by TLC + replay of every case into the real functions",
+   design="4/C19"),
 }
 NOT_BUILT = "decision procedure (TLA+ module + binding) not built yet in this session; see DESIGN.md section 4 for the plan"
 
